@@ -229,19 +229,19 @@ func c10TableRun(seed uint64) (string, error) {
 // ---------- accept loop over a scripted listener ----------
 
 type c10ScriptListener struct {
-	script   []int // 0 nil+conn, 1 listener closed, 2 deadline, 3 canceled, 4 other, 5 (nil, nil)
-	cancelAt int   // index before which the server context is cancelled (-1 never)
-	cancel   context.CancelFunc
-	calls    int32
-	served   *int32
-	want     int32
-	closed   chan struct{}
-	once     sync.Once
-	pipes    []net.Conn
-	inner    net.Listener
+	script    []int // 0 nil+conn, 1 listener closed, 2 deadline, 3 canceled, 4 other, 5 (nil, nil)
+	cancelAt  int   // index before which the server context is cancelled (-1 never)
+	cancel    context.CancelFunc
+	calls     int32
+	served    *int32
+	want      int32
+	closed    chan struct{}
+	once      sync.Once
+	pipes     []net.Conn
+	inner     net.Listener
 	blocked   chan struct{}
 	blockOnce sync.Once
-	mu       sync.Mutex
+	mu        sync.Mutex
 }
 
 func (l *c10ScriptListener) Close() error {
